@@ -484,6 +484,7 @@ func replayC17(r *core.Run, c core.Case) {
 //   - every string of length <= L over the port alphabet {0 1 5 6 9 + - space};
 //   - every dotted quad over a 13-value octet menu (boundaries of each decimal width and of the octet range);
 //   - every string of length <= L over the host alphabet {0 1 2 5 9 . : a f g % space}.
+//
 // L is 4 in the quick tier and 6 (hosts) / 7 (ports) in the thorough tier.
 func c17Bounded(r *core.Run) {
 	var ports []string
